@@ -318,8 +318,12 @@ prop(
     "in the middle of a burst. Count-based oracle that is sound under any timing: total notifications <= in-place writes to *.toml files "
     "(so a notification for any other file is an excess), after every write/burst that touched a .toml file at least one further "
     "notification arrives within 10 s, the stream does not end before cancel, and after cancel a consumer that keeps receiving sees it end "
-    "within 10 s. The watches are proven active first by a warm-up write per directory. Non-trivial = the case contains a TOML write.",
-    [dict(test="TestC19", shards=16, checks_quick=20, checks_thorough=400, shrinktime="5s", gomaxprocs=4)],
+    "within 10 s. The watches are proven active first by a warm-up write per directory. TestC19Manager runs the application's Manager.Run "
+    "itself (package main, in-package test; a private /dev with an empty /dev/input) in a generated hidi-config tree: after every in-place write to "
+    "a .toml file the manager loads the device configurations again within 10 s, loads <= 1 + writes to .toml files, and Run returns within 10 s "
+    "of cancellation. Non-trivial = the case contains a TOML write.",
+    [dict(test="TestC19", shards=16, checks_quick=20, checks_thorough=400, shrinktime="5s", gomaxprocs=4),
+     dict(test="TestC19Manager", bin="hidi", wrap="devns", shards=16, checks_quick=6, checks_thorough=120, shrinktime="5s", gomaxprocs=4)],
     level_text="Generated write/cancel schedules against a count-based oracle; 'eventually' is checked as 'within 10 s'.",
     level_note="Trusted: inotify on the sandbox file system queues one IN_MODIFY per write(2); kernel and goroutine timing are sampled, not controlled. "
                "Every warm-up write beyond one per directory weakens the upper bound by one (reported in the class histogram).",
